@@ -798,7 +798,7 @@ func init() {
 	extraEngines["filestore"] = RunFileStoreShard
 	extraReplayers["filestore"] = RunFileScenario
 	propTable["C17"] = PropInfo{Engine: "filestore", Level: "fault_enumeration", QuickS: 40, ThorS: 600,
-		Rule: "one evaluation = one injection into a child process running the real persist/file Store on a real directory, executed twice (identical outcome required), each followed by restart + Load/Store/Load: (a) I/O error at byte N via RLIMIT_FSIZE=N, (b) crash at byte N (RLIMIT_FSIZE=N plus strace KILL on entry to the retry write), (c) KILL on entry to and (d) EIO from every storage syscall the current code issues (taken from a strace record run); N ranges over every offset of the 1- and 60-byte nodes and boundary+sampled offsets of larger ones; every injection is distinct and non-trivial (it lands inside the Store)",
+		Rule: "one evaluation = one injection into a child process running the real persist/file Store on a real directory, executed twice (identical outcome required), each followed by restart + Load/Store/Load: (a) I/O error at byte N via RLIMIT_FSIZE=N, (b) crash at byte N (RLIMIT_FSIZE=N plus strace KILL on entry to the retry write), (c) KILL on entry to and (d) EIO from every storage syscall the current code issues (taken from a strace record run), (e) two writers of one name at syscall granularity: writer A held at each syscall while B stores and reads back (pause-sys), then additionally one of A's last syscalls failing (pause-fail) or B killed at one of its last syscalls (pause-bkill), (f) a cancelled context, (g) two goroutines in one process; N ranges over every offset of the 1- and 60-byte nodes and boundary+sampled offsets of larger ones; every injection is distinct and non-trivial (it lands inside the Store)",
 		Assumptions: []string{"real Linux kernel file semantics (tmpfs/ext4 of the sandbox); process crash, not power loss: completed syscalls persist", "strace (ptrace) syscall injection and per-thread when= counters; the child pins its work to the main OS thread", "RLIMIT_FSIZE short-write behaviour of the kernel"},
 		Components: map[string][]string{
 			"real": {"persist/file (built from /repo's working tree) in a child process", "Linux kernel file system", "os package"},
